@@ -9,6 +9,7 @@ with `Model.Diff.diff`.
 from __future__ import annotations
 
 from .. import diff_check as K
+from .. import diff_dialects as D
 from .. import diff_gen as G
 
 PROPERTY = "C07"
@@ -17,6 +18,7 @@ THEOREMS = [
     "C07.detect_partial",
     "C07.detect_counterexample",
     "C07.type_family_detected",
+    "C07.type_family_detected_groups",
     "C07.default_change_detected",
     "C07.changed_str",
     "C07.changed_of_value",
@@ -46,10 +48,14 @@ TRUSTED = [
     "canonicalisation of as_diffs() (harness/diff_schema.py:canon_diffs)",
 ]
 RULE = (
+    "dialect stream: {default, sqlite, postgresql, mysql, mssql, oracle} x (dialect's reflected type classes per family) x (generic metadata "
+    "types per family: string/integer/float-numeric/boolean/datetime/binary/json, random arguments) through the real impl.compare_type, no database; "
+    "non-trivial = cross-family pair no synonym group joins, distinct by (dialect, type texts).  Live stream: "
     "random base schema (as in C06) x one candidate of each of the 15 mutation kinds applicable to it (random object); compare_type and "
     "compare_server_default on; 20% of bases leave the proved class. Non-trivial = every evaluated (base, mutation); distinct by (kind, op list)"
 )
 ASSUMPTIONS = [
+    "dialect stream: type texts are ASCII; synonym groups and type_arg_extract results are read from the live impl and passed to the model as data; cross-family pairs that a synonym group of the unchanged code joins (e.g. NUMBER/INTEGER on Oracle, BOOL/TINYINT and JSON/LONGTEXT on MySQL) are followed, not judged",
     "a type change is 'to a different type family' when the first word of the SQLite DDL type differs (DECIMAL = NUMERIC) and the old type reflects by name",
     "a server default is 'changed' when its value (string value, or expression text without enclosing whitespace / one pair of parentheses / one pair of quotes) differs",
     "dropColumn / dropTable candidates are not referenced by an index, constraint or foreign key (otherwise it is not a single change)",
@@ -58,6 +64,7 @@ ASSUMPTIONS = [
 
 def run(ctx, n_bases=None, rng_name="main"):
     rng = ctx.rng(rng_name)
+    D.run_dialects(ctx, ctx.rng(rng_name + "/dialects"), 8 if ctx.thorough else 2)
     n = n_bases or (3000 if ctx.thorough else 150)
     pending = []
     for i in range(n):
